@@ -79,7 +79,7 @@ def check(run):
     from props.c12 import kept_link_scripted          # 'skip' on a link in the way: nothing for it or below it, in every arrival order
     kept_link_scripted(run, binary, jbin, quick, prop='C03')
     scen = []
-    for i in range(160 if quick else 2500):
+    for i in range(160 if quick else 15000):
         sc = sync_e2e.gen_scenario(rng, 'mixed')
         sc.tag = 'random'
         scen.append(sc)
